@@ -79,16 +79,80 @@ theorem unmarshal_marshal (fd : FieldDesc) (h : WF fd) :
     (unmarshalTag (goKindOf fd.kind) (marshalTag fd)).view = fd.view := by
   unfold unmarshalTag marshalTag
   rw [defTokens_eq, loop_tokens _ _ (plain_tokens fd h) _ _ _ (Nat.lt_succ_self _), fold_plainTokens fd h]
-  have hg := h.groupName
-  have hj := h.jsonOK
-  have hp := h.packedOK
-  by_cases hk : fd.kind = .group
-  · have hn := hg hk
-    cases hd : fd.dflt <;>
-      simp_all [applyDef, finish, St.view, FieldDesc.view, St.jsonName, St.isPacked, tagName] <;>
-      (split <;> simp_all)
-  · cases hd : fd.dflt <;>
-      simp_all [applyDef, finish, St.view, FieldDesc.view, St.jsonName, St.isPacked, tagName] <;>
-      (split <;> simp_all)
+  have hname : (if fd.kind = .group then toLower (tagName fd) else tagName fd) = fd.name := by
+    by_cases hk : fd.kind = .group
+    · simp [hk, tagName, h.groupName hk]
+    · simp [hk, tagName]
+  have hjson : (if emitsJson fd = true ∧ fd.json ≠ jsonCamelCase (lastName (tagName fd)) then some fd.json
+      else none).getD (jsonCamelCase (lastName fd.name)) = fd.json := by
+    by_cases hc : emitsJson fd = true ∧ fd.json ≠ jsonCamelCase (lastName (tagName fd))
+    · simp [hc]
+    · rw [if_neg hc]; exact (h.jsonOK hc).symm
+  have hpk : (decide (some fd.label = some Label.repeated) && packable (some fd.kind) && (fd.packed || fd.proto3))
+      = fd.packed := by
+    have := h.packedOK
+    simp only [Option.some.injEq] at this ⊢
+    exact this.symm
+  have hfin : ∀ d : Option Str, finish (applyDef
+      { name := tagName fd, number := (fd.number : Int), label := some fd.label, kind := some fd.kind,
+        json := if emitsJson fd = true ∧ fd.json ≠ jsonCamelCase (lastName (tagName fd)) then some fd.json else none,
+        packed := fd.packed, proto3 := fd.proto3, dflt := none } d) =
+      { name := fd.name, number := (fd.number : Int), label := some fd.label, kind := some fd.kind,
+        json := if emitsJson fd = true ∧ fd.json ≠ jsonCamelCase (lastName (tagName fd)) then some fd.json else none,
+        packed := fd.packed, proto3 := fd.proto3, dflt := d } := by
+    intro d
+    by_cases hk : fd.kind = .group
+    · have := h.groupName hk
+      cases d <;> simp [applyDef, finish, hk, tagName, this]
+    · have e : tagName fd = fd.name := by simp [tagName, hk]
+      cases d <;> simp [applyDef, finish, hk, e]
+  rw [hfin]
+  simp only [St.view, FieldDesc.view, St.jsonName, St.isPacked, hjson, hpk]
 
+/-! ### the hypotheses are satisfiable, and each one is needed -/
+
+/-- a proto3 optional enum field in a oneof with a default text containing commas -/
+def ex1 : FieldDesc :=
+  { kind := .enum, number := 115, label := .optional, packed := false, name := ['c', 'h', 'i', 'l', 'd', '_', 'e', 'n', 'u', 'm'],
+    json := ['c', 'h', 'i', 'l', 'd', 'E', 'n', 'u', 'm'], proto3 := true, enumName := ['p', 'k', 'g', '.', 'M', '_', 'E'], oneof := true,
+    dflt := some ['a', ',', 'b', ',', ',', 'c'] }
+
+/-- a proto2 repeated group -/
+def ex2 : FieldDesc :=
+  { kind := .group, number := 120, label := .repeated, packed := false, name := ['a', 'g', 'r', 'o', 'u', 'p'],
+    msgName := ['A', 'G', 'r', 'o', 'u', 'p'], json := ['a', 'g', 'r', 'o', 'u', 'p'], proto3 := false }
+
+set_option maxRecDepth 8000 in
+example : (unmarshalTag (goKindOf ex1.kind) (marshalTag ex1)).view = ex1.view := by decide
+set_option maxRecDepth 8000 in
+example : (unmarshalTag (goKindOf ex2.kind) (marshalTag ex2)).view = ex2.view := by decide
+
+set_option maxRecDepth 8000 in
+/-- the hypotheses of `unmarshal_marshal` are satisfiable by non-trivial descriptors -/
+example : WF ex1 ∧ WF ex2 := by
+  refine ⟨⟨rfl, by decide, ?_, ?_, ?_, by decide, by decide, by decide, by decide⟩,
+          ⟨rfl, by decide, ?_, ?_, ?_, by decide, by decide, by decide, by decide⟩⟩ <;>
+    (unfold NoComma; decide)
+
+/-- without `packedOK`: proto3 `repeated int32 x = 1 [packed = false]` comes back packed -/
+def bad1 : FieldDesc :=
+  { kind := .int32, number := 1, label := .repeated, packed := false, name := ['x'], json := ['x'], proto3 := true }
+set_option maxRecDepth 8000 in
+example : (unmarshalTag (goKindOf bad1.kind) (marshalTag bad1)).view ≠ bad1.view := by decide
+
+/-- without `jsonOK`: `int32 a_b = 1 [json_name = "a_b"]` comes back with JSON name `aB` -/
+def bad2 : FieldDesc :=
+  { kind := .int32, number := 1, label := .optional, packed := false, name := ['a', '_', 'b'], json := ['a', '_', 'b'],
+    proto3 := false }
+set_option maxRecDepth 8000 in
+example : (unmarshalTag (goKindOf bad2.kind) (marshalTag bad2)).view ≠ bad2.view := by decide
+
+/-- without `ncName`: a comma in a name splits the token -/
+def bad3 : FieldDesc :=
+  { kind := .int32, number := 1, label := .optional, packed := false, name := ['a', ',', 'r', 'e', 'q'], json := ['a', ',', 'r', 'e', 'q'],
+    proto3 := false }
+set_option maxRecDepth 8000 in
+example : (unmarshalTag (goKindOf bad3.kind) (marshalTag bad3)).view ≠ bad3.view := by decide
+
+#print axioms unmarshal_marshal
 end C46
